@@ -16,6 +16,8 @@ pub(crate) use listener::Listener;
 pub(crate) use listener::ListenerMessage;
 pub(crate) use session::Session;
 pub(crate) use session::SessionMessage;
+#[cfg(feature = "verif")]
+pub(crate) use session::verif_access;
 
 /// A network port
 pub(crate) type NetworkPort = u16;
